@@ -115,6 +115,13 @@ func DeepEqual(x, y interface{}) bool {
 		typy = typy.Elem()
 	}
 
+	// two integers are compared exactly: through float64, 2^53 and 2^53+1 are the same number
+	if negx, magx, isIntx := parseIntIfOk(typx); isIntx {
+		if negy, magy, isInty := parseIntIfOk(typy); isInty {
+			return negx == negy && magx == magy
+		}
+	}
+
 	flx, okx := parseFloatIfOk(typx)
 	fly, oky := parseFloatIfOk(typy)
 	if okx && oky {
@@ -122,6 +129,21 @@ func DeepEqual(x, y interface{}) bool {
 	}
 
 	return reflect.DeepEqual(typx.Interface(), typy.Interface())
+}
+
+// parseIntIfOk returns sign and magnitude of an integer kind (zero is never negative)
+func parseIntIfOk(val reflect.Value) (neg bool, mag uint64, ok bool) {
+	switch val.Kind() {
+	case reflect.Int, reflect.Int8, reflect.Int16, reflect.Int32, reflect.Int64:
+		i := val.Int()
+		if i < 0 {
+			return true, uint64(-(i + 1)) + 1, true
+		}
+		return false, uint64(i), true
+	case reflect.Uint, reflect.Uint8, reflect.Uint16, reflect.Uint32, reflect.Uint64, reflect.Uintptr:
+		return false, val.Uint(), true
+	}
+	return false, 0, false
 }
 
 func parseFloatIfOk(val reflect.Value) (float64, bool) {
